@@ -6,7 +6,7 @@ Import ListNotations.
 Require Import Nib.C17.AnteFacts Nib.C17.MsgTree Nib.C02.Model Nib.C02.Spec Nib.C02.Check.
 Local Open Scope Z_scope.
 
-Definition eth (a : addr) (n : nat) (g : Z) : msg := Leaf (EthTx a n g 1 1).
+Definition eth (a : addr) (n : nat) (g : Z) : msg := Leaf (EthTx a n g WEI 1).
 Definition evm_tx (ms : list msg) : tx := {| t_ext := EvmExt; t_signer := 98; t_key := KNone; t_fee := 1000000; t_msgs := ms |}.
 Definition cos_tx (s : addr) (ms : list msg) : tx := {| t_ext := NoExt; t_signer := s; t_key := KCosmos; t_fee := 1000000; t_msgs := ms |}.
 Definition ek_tx (s : addr) (ms : list msg) : tx := {| t_ext := NoExt; t_signer := s; t_key := KEth; t_fee := 1000000; t_msgs := ms |}.
@@ -26,10 +26,10 @@ Definition sweep_cases : list (list tx) := [
   [evm_tx [eth 20 0 21000]; {| t_ext := NoExt; t_signer := 98; t_key := KNone; t_fee := 1000000; t_msgs := [eth 20 0 50000] |}];
   [evm_tx [eth 20 0 21000]; {| t_ext := OtherExt; t_signer := 98; t_key := KNone; t_fee := 1000000; t_msgs := [eth 20 0 50000] |}];
   [ek_tx 20 [Exec 20 [Leaf (Grant 20 1 (MKLeaf K_ETH))]]; cos_tx 1 [Exec 1 [Exec 1 [eth 20 0 50000]]]];
-  [evm_tx [eth 20 0 21000]; cos_tx 1 [Exec 1 [Exec 1 [Leaf (EthTxAs 1 20 0 50000 1 1)]]]];
-  [evm_tx [eth 20 0 21000]; cos_tx 0 [Wasm 0 10 [Exec 10 [Leaf (EthTxAs 10 20 0 50000 1 1)]]]];
-  [evm_tx [eth 20 0 21000]; cos_tx 1 [Exec 1 [Leaf (EthTxAs 1 20 0 50000 1 1)]]];
-  [evm_tx [eth 20 0 21000]; cos_tx 1 [Leaf (EthTxAs 1 20 0 50000 1 1)]]
+  [evm_tx [eth 20 0 21000]; cos_tx 1 [Exec 1 [Exec 1 [Leaf (EthTxAs 1 20 0 50000 WEI 1)]]]];
+  [evm_tx [eth 20 0 21000]; cos_tx 0 [Wasm 0 10 [Exec 10 [Leaf (EthTxAs 10 20 0 50000 WEI 1)]]]];
+  [evm_tx [eth 20 0 21000]; cos_tx 1 [Exec 1 [Leaf (EthTxAs 1 20 0 50000 WEI 1)]]];
+  [evm_tx [eth 20 0 21000]; cos_tx 1 [Leaf (EthTxAs 1 20 0 50000 WEI 1)]]
 ].
 
 (** what must never be seen after one transaction, on the model's own states *)
